@@ -40,7 +40,19 @@ type readerStack struct {
 	parent *readerStack
 	count  int            // how many messages left in the current message set
 	header messagesHeader // the current header for a subset of messages within the set.
+	// logAppendTime is the timestamp of every message of a decompressed v1
+	// message set whose wrapper carries the LogAppendTime timestamp type
+	// (hasLogAppendTime); the inner messages keep the producer's timestamps.
+	logAppendTime    int64
+	hasLogAppendTime bool
 }
+
+// timestampTypeMask is the bit of the attributes of a v2 record batch and of
+// a v1 message that tells that the topic uses message.timestamp.type =
+// LogAppendTime: the timestamp of the records is then the batch's max
+// timestamp (v2), the wrapper message's timestamp (v1), not the one the
+// producer wrote.
+const timestampTypeMask = 0x08
 
 // messagesHeader describes a set of records. there may be many messagesHeader's in a message set.
 type messagesHeader struct {
@@ -208,6 +220,7 @@ func (r *messageSetReader) readMessageV1(min int64, key readBytesFunc, val readB
 			if offset, err = extractOffset(offset, r.decompressed.Bytes()); err != nil {
 				return
 			}
+			wrapperLogAppend := r.header.magic == 1 && r.header.v1.attributes&timestampTypeMask != 0
 
 			// mark the outer message as being read
 			r.markRead()
@@ -221,6 +234,9 @@ func (r *messageSetReader) readMessageV1(min int64, key readBytesFunc, val readB
 				remain: r.decompressed.Len(),
 				base:   offset,
 				parent: r.readerStack,
+
+				logAppendTime:    timestamp,
+				hasLogAppendTime: wrapperLogAppend,
 			}
 			continue
 		}
@@ -228,6 +244,9 @@ func (r *messageSetReader) readMessageV1(min int64, key readBytesFunc, val readB
 		// adjust the offset in case we're reading compressed messages.  the
 		// base will be zero otherwise.
 		offset += r.base
+		if r.hasLogAppendTime {
+			timestamp = r.logAppendTime
+		}
 
 		// When the messages are compressed kafka may return messages at an
 		// earlier offset than the one that was requested, it's the client's
@@ -324,6 +343,11 @@ func (r *messageSetReader) readMessageV2(_ int64, key readBytesFunc, val readByt
 		return
 	}
 	timestamp = r.header.v2.firstTimestamp + timestampDelta
+	if r.header.v2.attributes&timestampTypeMask != 0 {
+		// LogAppendTime: the broker has put the append time into the batch
+		// header; the deltas still describe the producer's timestamps
+		timestamp = r.header.v2.lastTimestamp
+	}
 	var offsetDelta int64
 	if err = r.readVarInt(&offsetDelta); err != nil {
 		return
